@@ -461,6 +461,15 @@ pub struct Conn {
     buf: Vec<u8>,
 }
 
+/// configuration of the OTHER clients' connections whose pipelines are placed between EXEC's store
+/// accesses: the batch collectors off (`min_pipeline_buffer` out of reach).  Since fix de38a13 the
+/// collectors are alive: a run of SET / GET frames at the head of a read would be taken as ONE batch
+/// and served in one round, which is a different schedule from the one the model is told (one store
+/// access per connection per round).  The per-command fast path stays on — it IS one access.
+pub fn lockstep_cfg() -> ConnectionConfig {
+    ConnectionConfig { min_pipeline_buffer: usize::MAX / 2, ..ConnectionConfig::default() }
+}
+
 impl Conn {
     pub fn open(state: &ShardedActorState) -> Conn {
         Conn::open_cfg(state, ConnectionConfig::default())
@@ -748,7 +757,7 @@ impl World {
         World {
             shards,
             c1: Conn::open_cfg(&st, cfg.clone()),
-            c2: Conn::open(&st),
+            c2: Conn::open_cfg(&st, lockstep_cfg()),
             c3: None,
             tw: Conn::open(&twin),
             st,
@@ -1138,7 +1147,7 @@ impl World {
         // the modelled client, the second connection, the third)
         let two = sched.iter().any(|s| s.len() > 1);
         if two && self.c3.is_none() {
-            self.c3 = Some(Conn::open(&self.st));
+            self.c3 = Some(Conn::open_cfg(&self.st, lockstep_cfg()));
             tokio::task::yield_now().await;
             tokio::task::yield_now().await;
         }
@@ -1619,6 +1628,16 @@ async fn session_full(out: &mut Out, rng: &mut Rng, script: Option<(usize, Vec<S
                     }
                     22..=29 => {
                         let mut blk = Vec::new();
+                        // since fix de38a13 the batch collectors and the fast path are alive: a run of
+                        // GET frames at the head of the write is taken by `collect_get_keys`
+                        // (`fast_batch_get_pipeline`) right before the transaction in the same read
+                        let lead = if rng.chance(1, 2) { rng.range(2, 4) } else { 0 };
+                        for _ in 0..lead {
+                            blk.push(Inp::Cmd(Cmd::Get(key(rng))));
+                        }
+                        if lead > 0 {
+                            out.count("pipelined-block:get-run-before-the-transaction");
+                        }
                         if rng.chance(1, 2) {
                             blk.push(Inp::Watch(vec![key(rng)]));
                         }
@@ -1635,6 +1654,16 @@ async fn session_full(out: &mut Out, rng: &mut Rng, script: Option<(usize, Vec<S
                             });
                         }
                         blk.push(if rng.chance(1, 8) { Inp::Discard } else { Inp::Exec(vec![]) });
+                        // … and a run of GET frames right after EXEC / DISCARD in the same write (the generic
+                        // loop hands them to `try_fast_path` one by one: the flag is down again; they must
+                        // see what the transaction wrote).  Reads only: the block's store dump is taken
+                        // after the whole write has been served.
+                        if rng.chance(1, 2) {
+                            out.count("pipelined-block:get-run-after-the-transaction");
+                            for _ in 0..rng.range(2, 4) {
+                                blk.push(Inp::Cmd(Cmd::Get(key(rng))));
+                            }
+                        }
                         w.pipelined(out, blk).await
                     }
                     30..=46 => w.input(out, Inp::Multi).await,
